@@ -12,7 +12,7 @@ RULE = ("random programs (bounded/ref.py generator) x layout rewritings that mus
         "parse (if still derivable) or raise JaqalParseError whose position is at or after the first offending token and inside the text; "
         "literal subcircuit counts incl. 0 must be reported as written; non-trivial = the variant differs from the base text")
 BOUND = "n <= 3, depth <= 3, 12 layout variants and <= 40 near-misses per program"
-BUDGET_S = {"quick": 40, "thorough": 600}
+BUDGET_S = {"quick": 40, "thorough": 400}
 
 
 def sexp(text, **kw):
